@@ -256,3 +256,91 @@ func VerifC10MixedWalk() {
 	verifAssert("close", it.Close() == nil)
 	verifReach("end")
 }
+
+// VerifC10AutoWalk: automatic chunk-sized steps. Over three gapped domains (fixed layout, 2/3/2 samples) and an
+// arbitrary chunk size, a forward traversal by Next(AutoSpan) from SeekFirst — and a backward one by
+// Prev(AutoSpan) from SeekLast — returns at every step at most one chunk of samples, exactly the stored samples
+// inside the view it reports, with adjacent views, and visits every sample exactly once before it stops.
+func VerifC10AutoWalk() {
+	mk := func(vs ...int64) []byte {
+		var out []byte
+		for _, v := range vs {
+			var x [8]byte
+			telem.ByteOrder.PutUint64(x[:], uint64(v))
+			out = append(out, x[:]...)
+		}
+		return out
+	}
+	specs := []domain.VerifDomainSpec{
+		{Start: 10, End: 15, Data: mk(10, 14)},
+		{Start: 30, End: 37, Data: mk(30, 33, 36)},
+		{Start: 50, End: 55, Data: mk(50, 54)},
+	}
+	all := []telem.TimeStamp{10, 14, 30, 33, 36, 50, 54}
+	ddb := domain.VerifBuildDB(specs)
+	ch := channel.Channel{Key: 1, Name: "idx", IsIndex: true, Index: 1, DataType: telem.TimeStampT}
+	db := &DB{domain: ddb, closed: &atomic.Bool{}, leadingAlignment: &atomic.Uint32{}, wrapError: func(err error) error { return err },
+		resolver: newOffsetResolver(ch.DataType, ddbInstr()), cfg: Config{Channel: ch}}
+	db.idx = &index.Domain{DB: ddb, Channel: ch}
+	ctx := context.Background()
+	b := telem.TimeRange{Start: 0, End: 100}
+	chunk := int64(verifLen("chunk", 1, verifParam("chunk", 4)))
+	it, err := db.OpenIterator(IteratorConfig{Bounds: b, AutoChunkSize: chunk})
+	verifAssume(err == nil)
+	forward := verifBool("forward")
+	var visited []telem.TimeStamp
+	if forward {
+		verifAssume(it.SeekFirst(ctx))
+	} else {
+		verifAssume(it.SeekLast(ctx))
+	}
+	prev := it.View()
+	for k := 0; k < len(all)+2; k++ {
+		var valid bool
+		if forward {
+			valid = it.Next(ctx, AutoSpan)
+		} else {
+			valid = it.Prev(ctx, AutoSpan)
+		}
+		v := it.View()
+		got := verifFrameStamps(it)
+		verifObserve("n", int64(len(got)))
+		verifObserve("view.start", int64(v.Start))
+		verifObserve("view.end", int64(v.End))
+		for _, g := range got {
+			verifObserve("got", int64(g))
+		}
+		// Known finding C10-autospan-edges: backward automatic steps fail when a chunk ends on a domain boundary,
+		// and the step after the last chunk (either direction) reports a discontinuity error and keeps the
+		// previous frame. Everything about forward steps that return data is checked without exception.
+		known := !forward || !valid
+		assertK := func(label string, cond bool) { verifAssertKnown(label, cond, "C10-autospan-edges", known) }
+		assertK("auto-no-error", it.Error() == nil)
+		assertK("auto-at-most-one-chunk", int64(len(got)) <= chunk)
+		assertK("auto-exact-samples-of-view", verifHExactly(got, all, v))
+		assertK("auto-valid-iff-samples", valid == (len(got) > 0))
+		if forward && prev.End != b.End {
+			assertK("auto-next-adjacent", v.Start == prev.End)
+		}
+		if !forward && prev.Start != b.Start {
+			assertK("auto-prev-adjacent", v.End == prev.Start)
+		}
+		if !valid {
+			break
+		}
+		if forward {
+			visited = append(visited, got...)
+		} else {
+			visited = append(append([]telem.TimeStamp{}, got...), visited...)
+		}
+		prev = v
+	}
+	same := len(visited) == len(all)
+	for i := range visited {
+		if i < len(all) && visited[i] != all[i] {
+			same = false
+		}
+	}
+	verifAssertKnown("auto-traversal-visits-every-sample-once", same, "C10-autospan-edges", !forward)
+	verifReach("end")
+}
